@@ -1,19 +1,22 @@
 #!/bin/sh
 # Re-validates every kept change under seeded/ against the quick tier of its property's check without touching /repo:
-# each patch is applied to a scratch copy of /repo's HEAD src/ (VP_SRC).  3 in parallel.  Result: seeded/SWEEP.txt
-# usage: sweep_seeded_copy.sh [pattern]
+# each patch is applied to a scratch copy of /repo's HEAD src/ (VP_SRC).  SWEEP_P in parallel (default 3), 25 min
+# limit per change.  Result: seeded/SWEEP.txt.   usage: sweep_seeded_copy.sh [pattern] [resume-file]
+# (resume-file: lines of an earlier, interrupted sweep; ids listed there with exit=1 are not run again)
 cd /verif || exit 2
 PAT="${1:-C}"
-ls -d seeded/${PAT}*/ | xargs -P 3 -I{} sh -c '
+RESUME="${2:-/dev/null}"
+ls -d seeded/${PAT}*/ | while read d; do id=$(basename "$d"); grep -q "^$id .* exit=1 " "$RESUME" 2>/dev/null || echo "$d"; done | xargs -P "${SWEEP_P:-3}" -I{} sh -c '
   d="{}"; id=$(basename "$d")
   prop=$(python3 -c "import json; print(json.load(open(\"$d/meta.json\"))[\"property\"])")
   W=$(mktemp -d /root/mutcopy.XXXXXX)
   git -C /repo archive HEAD src | tar -x -C "$W"
-  if ! ( cd "$W" && git apply "/verif/$d/patch.diff" ) 2>/dev/null; then echo "$id $prop DOES-NOT-APPLY"; rm -rf "$W"; exit 0; fi
-  VP_SRC="$W/src" ./check "$prop" quick --no-recheck --workers 6 > "$W/log" 2>&1; rc=$?
+  if ! ( cd "$W" && git apply --include="src/*" "/verif/$d/patch.diff" ) 2>/dev/null; then echo "$id $prop DOES-NOT-APPLY"; rm -rf "$W"; exit 0; fi
+  VP_SRC="$W/src" timeout 1500 ./check "$prop" quick --no-recheck --workers 5 > "$W/log" 2>&1; rc=$?
   echo "$id $prop exit=$rc violations=$(grep -c "^VIOLATION" "$W/log")"
   rm -rf "$W"
 ' > seeded/SWEEP.txt.tmp
-sort seeded/SWEEP.txt.tmp > seeded/SWEEP.txt; rm -f seeded/SWEEP.txt.tmp
+grep " exit=1 " "$RESUME" 2>/dev/null >> seeded/SWEEP.txt.tmp
+sort -u seeded/SWEEP.txt.tmp > seeded/SWEEP.txt; rm -f seeded/SWEEP.txt.tmp
 echo "not detected or not applicable:"; grep -v "exit=1" seeded/SWEEP.txt
 exit 0
